@@ -200,7 +200,7 @@ def print_assumptions(ctx, rel_v, names):
     axioms = set()
     for l in p.stdout.splitlines():
         m = re.match(r'^([A-Za-z_][A-Za-z0-9_.\']*)\s*:', l)
-        if m:
+        if m and m.group(1) != 'Axioms':
             axioms.add(m.group(1))
     return axioms, p.stdout
 
